@@ -103,13 +103,18 @@ def P(expr):
     """Predicate from a Python expression over: np, lay, c (count), dt, op, mode, root, pat, coll, late,
     N (hosts), K (num_core of the SMP algorithms: ranks per host if the same on every host, else 1), M (their
     inter_comm_size = ceil(np/K)), pow2 (np is a power of two), holes (datatype with a hole), uniformcnt, cnts (recvcounts of
-    the v-collectives), total (their sum), ext/size (extent and size of the datatype), nbytes (c*size), blocked (consecutive ranks share a host), uniform (same number of ranks per host)."""
+    the v-collectives), total (their sum), ext/size (extent and size of the datatype), nbytes (c*size),
+    rootleader (the root is the lowest rank of its host), blocked (consecutive ranks share a host), uniform (same number of ranks per host)."""
     code = compile(expr, "<pred %s>" % expr, "eval")
 
     def pred(np, layout, case):
         K = uniform_cores(np, layout)
         cnts = [cnt1(case, np, i) for i in range(np)]
-        env = dict(np=np, lay=layout, c=case["c"], dt=case["dt"], op=case["op"], mode=case["mode"], root=case["root"],
+        hosts = G.hostfile_lines(layout, np)
+        if layout == "rev":
+            hosts = hosts[::-1]
+        r = case["root"] if case["root"] < np else 0
+        env = dict(rootleader=(hosts.index(hosts[r]) == r), np=np, lay=layout, c=case["c"], dt=case["dt"], op=case["op"], mode=case["mode"], root=case["root"],
                    pat=case["pat"], coll=case["coll"], late=case["late"], N=nodes(np, layout), K=K, M=(np + K - 1) // K,
                    pow2=(np & (np - 1) == 0), holes=(case["dt"] == "vec"), uniformcnt=(len(set(cnts)) == 1), cnts=cnts,
                    ext=EXTENT[case["dt"]], size=SIZE[case["dt"]], nbytes=case["c"] * SIZE[case["dt"]], total=sum(cnts), blocked=G._blocked(layout, np), uniform=G._uniform(layout, np), min=min, max=max, any=any,
@@ -226,8 +231,14 @@ FINDINGS = [
             P("mode == 'ip' and np > 1 and c > 0"), {SENDMOD, WRONG}, W(2, "flat", "ip 1 0 1 int none"),
             "with MPI_IN_PLACE at a root other than rank 0 the root's send buffer is overwritten"),
     # ---------------------------------------------------------------------------------------------------- gather -------
-    Finding("gather/mvapich2_two_level", "non-uniform-placement:crash", P("not uniform"), {CRASH, DEAD, WRONG},
-            W(3, "cyc2", "b 0 0 1 int none"), "the path for hosts with different numbers of ranks crashes (SIGSEGV)"),
+    Finding("gather/mvapich2_two_level", "leader_comm_rank=leader_comm->size():crash", P("1 < N < np and c > 0 and (not uniform or not rootleader)"),
+            {CRASH, DEAD, WRONG}, W(4, "blk2", "b 1 0 1 int none"),
+            "gather-mvapich.cpp sets leader_comm_rank = leader_comm->size() (typo for ->rank()): the branches for a root that "
+            "is not a node leader and for hosts with different numbers of ranks never find the leader of the root (SIGSEGV)"),
+    Finding("gather/mvapich2_two_level", "cyclic-placement:blocks-in-host-order:wrong-result", P("1 < N < np and c > 0 and not blocked"),
+            {WRONG, CRASH}, W(4, "cyc2", "b 0 0 1 int none"),
+            "the blocks gathered per node are stored node after node: when the ranks of a node are not consecutive the receive "
+            "buffer is not in rank order", crash=False),
     # ---------------------------------------------------------------------------------------------------- alltoall -----
     Finding("alltoall/pair_rma", "np=nonpow2:rank^i-out-of-range:crash", P("not pow2"), {CRASH}, W(3, "flat", "b 0 0 1 int none"),
             "dst = rank ^ i is not a rank when the size is not a power of two; unlike alltoall pair there is no test"),
